@@ -91,7 +91,7 @@ def open_ids(kf):
 # repaired (known_findings.json `fixed`, theorem c01_pair_channel_closed_regression): no class explains a failure of
 # c01_pair_ok after a channel close any more.  Its former witness is a fixed case of the component pair_sockdrop.
 CLASSIFIERS = [
-    ("KF1", "c01_kf1_class",
+    ("KF1", "c01_kf1_class2",
      "an MTU probe was popped and re-segmented under the same sequence number although a copy of it had reached "
      "(or later reached) the peer: the receiver appends overlapping bytes"),
 ]
@@ -146,7 +146,7 @@ def gen_sockdrop(rng, tier):
 COMPONENTS = [
     # the guarded statement (what the theorems give): a failure here is a violation
     {"name": "pair", "keep": KEEP, "gen": gen, "nontrivial": nontrivial, "classify": classify,
-     "pred": pred_builder("c01_pair_guarded")},
+     "pred": pred_builder("c01_pair_guarded2")},
     # the property text itself, unguarded: failures are expected to fall into the known class KF1
     {"name": "pair_unguarded", "keep": KEEP, "gen": gen_kf1, "nontrivial": nontrivial, "classify": classify,
      "pred": pred_builder("c01_pair_ok")},
